@@ -29,10 +29,13 @@ def _sem_clauses(ctx, r, f, clauses, texts, keys):
     if sem is None and "_ressem" not in ctx.extra:
         sem = retrieval_eval(ctx.prog)
         ctx.extra["_ressem"] = sem if sem is not None else False
-    if not sem or "raises" in sem:
+    if not sem:
         return False
     for c in clauses:
-        if sem.get(c, "?") is None:
+        if "raises" in sem and sem.get(c, "?") is None or ("raises" in sem and c not in sem):
+            # a scenario of the table ended in an exception the property does not allow there: nothing after it was decided
+            r.fail("%s|%s" % (f.qual, keys[c]), site(f), "%s (clause %s: %s)" % (sem["raises"], c, texts[c]))
+        elif sem.get(c, "?") is None:
             r.ok(site(f) + " [%s]" % c, texts[c])
         elif c in sem:
             r.fail("%s|%s" % (f.qual, keys[c]), site(f), sem[c])
@@ -198,6 +201,10 @@ def rule_every_retrieval_cached(ctx, rid="R15.3b"):
     f = find_method(prog, "validators.RefResolver", "resolve_remote")
     cfg = cfg_of(f)
     r = ctx.rule(rid, "every successful retrieval, by whichever branch, passes the cache_remote test (and so the store write) before returning", floor=1)
+    _sem_clauses(ctx, r, f, ("cached", "uncached"),
+                 {"cached": "with cache_remote on, whatever was retrieved ({} and false included) is filed under its URL and not retrieved again",
+                  "uncached": "with cache_remote off nothing is filed"},
+                 {"cached": "not-cached", "uncached": "unconditional-store-write"})
     tests = [n for n in cfg.live if n.kind == "test" and isinstance(n.ast, ast.Attribute) and n.ast.attr == "cache_remote"
              and calls.type_of(f, n.ast.value) == "RefResolver"]
     rets = [n for n in cfg.live if n.kind == "return"]
